@@ -192,7 +192,7 @@ def deref_sites(f):
 
 
 def nullable_derefs(ctx, P, funcs, producers, rule="R-NULLABLE", nonnull_fields=(), extra_gen=None,
-                    describe=None):
+                    describe=None, per_var=False):
     """Every dereference of (a variable holding) the result of a nullable producer needs a
     dominating non-null fact.  producers: predicate over callee decl dicts."""
     n_sites = 0
@@ -241,7 +241,12 @@ def nullable_derefs(ctx, P, funcs, producers, rule="R-NULLABLE", nonnull_fields=
             key = ptr_key(f, p)
             ok = key is not None and ("nn", key) in st
             ent = "%s: deref of %s (from %s)" % (short(f), expr_str(f, p), pn)
-            ent += occurrence_tag(seen, ent)
+            if per_var and ent in seen and not ok:
+                seen[ent] += 1
+                continue                      # same unchecked variable: one obligation per root cause
+            ent += occurrence_tag(seen, ent) if not per_var else ""
+            if per_var:
+                seen.setdefault(ent, 1)
             ctx.ob(rule, ent, ok, f.loc(n),
                    "result of %s is dereferenced under a non-null fact" % pn if ok else
                    "`%s` holds the result of %s(), which can be null, and is dereferenced without a dominating "
